@@ -13,7 +13,6 @@ import (
 
 	"github.com/flynn/noise"
 	ic "github.com/libp2p/go-libp2p/core/crypto"
-	"github.com/libp2p/go-libp2p/core/peer"
 	libp2ptls "github.com/libp2p/go-libp2p/p2p/security/tls"
 	"google.golang.org/protobuf/encoding/protowire"
 	"pgregory.net/rapid"
@@ -534,5 +533,3 @@ func TestNoisePayloadSubstitution(t *testing.T) {
 	}
 	stats.Exhaustive(name)
 }
-
-var _ = peer.ID("")
